@@ -236,6 +236,15 @@ def step (line : String) : String :=
       | .ok rows => showDRows rows
       | r => r.tag
     | none => "bad-op"
+  | ["ptxspec", agg, bsp, refs, ctx, impl] =>
+    -- oracle: the rows the Lean Spec demands for this transaction / trace action vs what the implementation produced
+    match parseDecl agg "0" "_" bsp "-" with
+    | some d => match Row.specTxRows (parseRefs refs) d (parseCtx ctx) with
+      | .unspecified => "ok"
+      | .rows rs =>
+        let want := (showDRows rs).replace " " "#"
+        if want == impl then "ok" else s!"viol spec demands {want}"
+    | none => "bad-op"
   | ["pushaddrs", agg, desc, ifl, bsp] =>
     match parseDecl agg desc ifl bsp "-" with
     | some d =>
